@@ -214,6 +214,22 @@ pub struct Stats {
     pub writes: u64,
 }
 
+/// Bit of `Op::flags`: the operation is abandoned at its first suspension (the transport write, which the
+/// scripted write half suspends once before it takes any byte).
+pub const CANCEL: u8 = 16;
+
+/// Run an operation to completion, or poll it once and drop it if it suspends (`None`).
+fn drive<F: std::future::Future>(f: F, cancel: bool) -> Option<F::Output> {
+    if !cancel {
+        return Some(block_on(f));
+    }
+    let mut f = Box::pin(f);
+    match crate::util::poll_once(f.as_mut()) {
+        std::task::Poll::Ready(v) => Some(v),
+        std::task::Poll::Pending => None,
+    }
+}
+
 pub fn run(sc: &Scenario, stats: &mut Stats) {
     let wire = new_wire(0);
     {
@@ -229,13 +245,20 @@ pub fn run(sc: &Scenario, stats: &mut Stats) {
     stats.scenarios += 1;
     for op in &sc.ops {
         stats.ops += 1;
+        let cancel = op.flags & CANCEL != 0;
+        {
+            let mut w = wire.borrow_mut();
+            w.write_yield = cancel;
+            w.write_yielded = false;
+        }
         if op.api == "flush" {
             ev(json!({"ev":"op","kind":"flush","api":"flush","h":"","len":0,"bad":false}));
-            let r = block_on(conn.flush());
+            let r = drive(conn.flush(), cancel);
             let (blen, pos) = hook(&conn);
             let cls = match &r {
-                Ok(()) => "ok",
-                Err(e) => err_class(e),
+                None => "cancelled",
+                Some(Ok(())) => "ok",
+                Some(Err(e)) => err_class(e),
             };
             ev(json!({"ev":"ret","cls":cls,"pos":pos,"blen":blen}));
             continue;
@@ -249,15 +272,15 @@ pub fn run(sc: &Scenario, stats: &mut Stats) {
         let kind = if op.api == "enqueue_call" { "enqueue" } else { "send" };
         ev(json!({"ev":"op","kind":kind,"api":op.api,"h":h,"len":len,"bad":bad}));
         let r = std::panic::catch_unwind(std::panic::AssertUnwindSafe(|| match (&msg, op.api.as_str()) {
-            (Msg::CallDyn(c), "enqueue_call") => conn.enqueue_call(c),
-            (Msg::CallTyped(c), "enqueue_call") => conn.enqueue_call(c),
-            (Msg::CallDyn(c), _) => block_on(conn.send_call(c)),
-            (Msg::CallTyped(c), _) => block_on(conn.send_call(c)),
-            (Msg::ReplyDyn(r), _) | (Msg::ReplyNone(r), _) => block_on(conn.send_reply(r)),
-            (Msg::ReplyTyped(r), _) => block_on(conn.send_reply(r)),
-            (Msg::ErrDyn(d), _) => block_on(conn.send_error(d)),
-            (Msg::ErrTyped(e), _) => block_on(conn.send_error(e)),
-            (Msg::Raw(x), _) => block_on(conn.send_error(x)),
+            (Msg::CallDyn(c), "enqueue_call") => Some(conn.enqueue_call(c)),
+            (Msg::CallTyped(c), "enqueue_call") => Some(conn.enqueue_call(c)),
+            (Msg::CallDyn(c), _) => drive(conn.send_call(c), cancel),
+            (Msg::CallTyped(c), _) => drive(conn.send_call(c), cancel),
+            (Msg::ReplyDyn(r), _) | (Msg::ReplyNone(r), _) => drive(conn.send_reply(r), cancel),
+            (Msg::ReplyTyped(r), _) => drive(conn.send_reply(r), cancel),
+            (Msg::ErrDyn(d), _) => drive(conn.send_error(d), cancel),
+            (Msg::ErrTyped(e), _) => drive(conn.send_error(e), cancel),
+            (Msg::Raw(x), _) => drive(conn.send_error(x), cancel),
         }));
         let (blen, pos) = hook(&conn);
         let r = match r {
@@ -266,6 +289,14 @@ pub fn run(sc: &Scenario, stats: &mut Stats) {
                 // a panic inside the code under test is data: no specification explains it
                 ev(json!({"ev":"ret","cls":"panic","pos":pos,"blen":blen}));
                 break;
+            }
+        };
+        let r = match r {
+            Some(r) => r,
+            None => {
+                // abandoned while the transport write was pending (no byte taken yet)
+                ev(json!({"ev":"ret","cls":"cancelled","pos":pos,"blen":blen}));
+                continue;
             }
         };
         let cls = match &r {
@@ -319,7 +350,14 @@ fn rand_len(r: &mut Rng) -> usize {
 pub fn gen_history(r: &mut Rng, sid: String) -> Scenario {
     let n = r.range(1, 12);
     let ops = (0..n)
-        .map(|_| Op { api: rand_api(r).into(), mode: rand_mode(r, true), want: rand_len(r), i: r.below(100000) as u32, flags: r.below(8) as u8 })
+        .map(|_| Op {
+            api: rand_api(r).into(),
+            mode: rand_mode(r, true),
+            want: rand_len(r),
+            i: r.below(100000) as u32,
+            // now and then a send / flush is abandoned while its transport write is pending
+            flags: r.below(8) as u8 | if r.chance(1, 8) { CANCEL } else { 0 },
+        })
         .collect();
     Scenario { sid, ops, fail_write_at: if r.chance(1, 12) { r.range(1, 3) } else { 0 } }
 }
